@@ -1,7 +1,7 @@
 (* C02 - Rounding never exceeds eps, never raises a rank, and leaves its operand intact.
    Only theorem statements closed by `exact`, each followed by Print Assumptions. *)
 From Coq Require Import List Arith ZArith.
-From TT Require Import RingSig SumN Mat Core OrdRing RankChop RankChopP FrobP Sweep SweepP OrthP.
+From TT Require Import RingSig SumN Mat Core OrdRing RankChop RankChopP FrobP Sweep SweepP OrthP GaugeP.
 Import ListNotations.
 
 Section C02.
@@ -85,6 +85,18 @@ Theorem C02_last_core_error (pre : tt R) (c c' : core3 R) : linked 1 pre -> Fora
   sum_idx (shape (pre ++ (c :: nil))) (fun idx => rmul (rsub (entry (pre ++ (c :: nil)) idx) (entry (pre ++ (c' :: nil)) idx)) (rconj (rsub (entry (pre ++ (c :: nil)) idx) (entry (pre ++ (c' :: nil)) idx))))
   = sum_n (Core.nn c) (fun i => sum_n (endrank 1 pre) (fun p => rmul (rsub (e3 c p i 0%nat) (e3 c' p i 0%nat)) (rconj (rsub (e3 c p i 0%nat) (e3 c' p i 0%nat))))).
 Proof. exact (last_core_error pre c c'). Qed.
+(* the general step of the sweep: a train in mixed gauge (orthonormal left unfoldings before the core, orthonormal right unfoldings after it):
+   its squared norm is that of the centre core, and replacing the centre core by any other one moves the tensor by exactly their distance *)
+Theorem C02_norm2_centre_core (pre post : tt R) (c : core3 R) : linked 1 pre -> Forall left_orth pre -> chained (r1 c) post -> Forall right_orth post ->
+  sum_idx (shape (pre ++ c :: post)) (fun idx => rmul (entry (pre ++ c :: post) idx) (rconj (entry (pre ++ c :: post) idx)))
+  = sum_n (Core.nn c) (fun i => sum_n (endrank 1 pre) (fun p => sum_n (r1 c) (fun q => rmul (e3 c p i q) (rconj (e3 c p i q))))).
+Proof. exact (norm2_centre_core pre post c). Qed.
+Theorem C02_centre_core_error (pre post : tt R) (c c' : core3 R) :
+  linked 1 pre -> Forall left_orth pre -> chained (r1 c) post -> Forall right_orth post -> r1 c' = r1 c -> Core.nn c' = Core.nn c ->
+  sum_idx (shape (pre ++ c :: post)) (fun idx => rmul (rsub (entry (pre ++ c :: post) idx) (entry (pre ++ c' :: post) idx))
+                                                       (rconj (rsub (entry (pre ++ c :: post) idx) (entry (pre ++ c' :: post) idx))))
+  = sum_n (Core.nn c) (fun i => sum_n (endrank 1 pre) (fun p => sum_n (r1 c) (fun q => rmul (rsub (e3 c p i q) (e3 c' p i q)) (rconj (rsub (e3 c p i q) (e3 c' p i q)))))).
+Proof. exact (centre_core_error pre post c c'). Qed.
 End C02_sweep.
 
 Print Assumptions C02_bond_rank_le.
@@ -98,3 +110,5 @@ Print Assumptions C02_sweep_error_eq.
 Print Assumptions C02_tt_svd_error_bound.
 Print Assumptions C02_norm2_last_core.
 Print Assumptions C02_last_core_error.
+Print Assumptions C02_norm2_centre_core.
+Print Assumptions C02_centre_core_error.
